@@ -203,7 +203,7 @@ def strategy(tier):
 def budget(tier):
     # (a quarter of the cases and all mixed-kind models re-import the
     # library per compared cell: ~45 ms each)
-    return 4000 if tier == 'quick' else 120000
+    return 4000 if tier == 'quick' else 40000
 
 
 def snapshot(model):
